@@ -114,6 +114,11 @@ class weight(object):
     def __init__(self, val, w):
         rng_lhs_e = None
         rng_rhs_e = None
+        
+        # Operands that are already expressions reside on the expression
+        # stack in evaluation order, the weight on top: convert it first
+        to_expr(w)
+        w_e = pop_expr()
     
         if isinstance(val, (list,tuple)):
             if len(val) != 2:
@@ -130,8 +135,6 @@ class weight(object):
         else:
             to_expr(val)
             rng_lhs_e = pop_expr()
-        to_expr(w)
-        w_e = pop_expr()
     
         self.weight_e = DistWeightExprModel(
             rng_lhs_e,
